@@ -7,7 +7,7 @@ BASE = json.load(open('/root/.vp/BASELINE.json')) if os.path.exists('/root/.vp/B
 # id -> (category, technique, text, note, design_ref)
 CHECKS = {
  "C01": ("exploration", "bounded-exhaustive shape enumeration on the real code + exhaustive tiny-field value enumeration",
-         "Every signer subset of every (n,t) up to the bound, 5 identifier kinds, dealer/split/DKG keys, on all six ciphersuites, each session checked by an independent single-signer verifier; plus every key/coefficient/nonce value on GF(7)/GF(11) against a plain-u64 reference of the whole signing flow.",
+         "Every signer subset of every (n,t) up to the bound, 5 identifier kinds, dealer/split/DKG keys, on all six ciphersuites, each session checked by an independent single-signer verifier; plus sessions in which every object crosses the wire (binary / JSON) and sessions on refreshed / repaired key material; plus every key/coefficient/nonce value on GF(7)/GF(11) against a plain-u64 reference of the whole signing flow.",
          "Real-curve scalars are an alphabet, not all values (value-genericity argument, DESIGN 2); curve crates, sha2/sha3, ed25519-dalek and libsecp256k1 are trusted.", "DESIGN 4 C01"),
 }
 CHECKS.update({
@@ -36,7 +36,7 @@ CHECKS.update({
 })
 CHECKS.update({
  "C07": ("exploration", "bounded-exhaustive shape enumeration of complete honest DKG runs on the real code with independent algebraic oracles",
-         "Every (n,t) up to the bound x 5 identifier kinds x seeds through each crate's three DKG parts (and the tiny field): all participants hold the identical public package; every key package is consistent; group key = sum of constant-term commitments (Taproot: BIP-341 key-path-only tweak recomputed with libsecp256k1 add_tweak); every entry = summed commitment polynomial evaluated independently; EVERY t-subset interpolates to the key and signs under an independent verifier.",
+         "Every (n,t) up to the bound x 5 identifier kinds x seeds through each crate's three DKG parts (and the tiny field): all participants hold the identical public package; every key package is consistent; group key = sum of constant-term commitments (Taproot: BIP-341 key-path-only tweak recomputed with libsecp256k1 add_tweak); every entry = summed commitment polynomial evaluated independently; EVERY t-subset interpolates to the key and signs under an independent verifier; a 256-of-257 run with round-one packages over the wire.",
          "Per-participant polynomials are seeded streams.", "DESIGN 4 C07"),
  "C08": ("fault_enumeration", "exhaustive fault enumeration over every (receiver, sender) pair x fault kind x field, against two concurrent honest runs",
          "Every ordered (receiver, sender) pair x ~30 fault kinds on both DKG rounds (both proof components, proof for every other identifier / other run, every commitment coefficient, lengths t-1/t+1 with and without valid proof, own-identifier filing in three forms, missing/surplus, misrouted / cross-run / cross-sender shares, consistently restricted or extended maps). The first consuming step must be Err, earlier steps must equal the honest run, culprits must be a subset of {sender} and exactly {sender} for proof and share faults.",
